@@ -564,6 +564,12 @@ func registerFS(e *Engine) {
 		if n.openW > 0 {
 			st.events = append(st.events, "rename-of-open-file "+dst)
 		}
+		// ghost: "what a published name vouches for was flushed first" (vx.FSPublishGuard)
+		if g, ok := st.guards[dst]; ok {
+			if gn := st.nodes[g]; gn != nil && gn.dirty {
+				st.events = append(st.events, "publish-beside-unsynced-file "+dst)
+			}
+		}
 		delete(st.nodes, src)
 		if n.isDir {
 			// move the subtree
